@@ -17,7 +17,9 @@
 (*   short    0: a write accepts everything; n > 0: at most n units per write  *)
 (*   werr     always 0 (Prometheus-side write errors are outside C12 / C13; the *)
 (*            field is kept so that the formulas can exclude such runs)         *)
-(*   stop     scraping administratively stopped                               *)
+(*   stop     scraping administratively stopped when the scrape starts          *)
+(*   flip     the stop setting is toggled while the target is answering (the     *)
+(*            code reads it once, at the start: no effect on this scrape)        *)
 (*   assigned the target has a status entry on this shard                      *)
 (*                                                                          *)
 (* Constants pin the two places where code and property disagree(d):          *)
